@@ -124,12 +124,11 @@ Section C16.
     exact (latitude_integral_conserved n m _ _ st ss H1 H2 H3 H4 H5 x).
   Qed.
 
-  (** longitude, PARTIAL: non-negativity, unit row sums, constants and range for
-      the periodic overlap exactly as coded, for every row with non-zero total.
-      NOT proved: the periodic partition identity [lon_partition] (row totals =
-      target cell widths, column totals = source cell widths), real precondition:
-      every cell at most one period wide (see the pointwise theorems below). *)
-  Theorem C16_longitude_rows_partial period n m (tp sp : nat -> F) i :
+  (** longitude in an arbitrary ordered field: non-negativity, unit row sums,
+      constants and range for the periodic overlap exactly as coded, for every row
+      with non-zero total (that the total is the cell width, hence non-zero, is
+      C16_longitude_rows below, over the reals). *)
+  Theorem C16_longitude_rows_given_total period n m (tp sp : nat -> F) i :
     row_total m (lon_overlap period n m tp sp) i <> 0 ->
     (forall j, (j < m)%nat -> fle 0 (lon_weights period n m tp sp i j)) /\
     sumn m (lon_weights period n m tp sp i) = 1 /\
@@ -139,9 +138,10 @@ Section C16.
         fle (apply_weights m (lon_weights period n m tp sp) x i) hi).
   Proof. exact (longitude_rows_partial period n m tp sp i). Qed.
 
-  (** tensor-product (area) integral, PARTIAL: conservation follows from the
-      latitude theorems and the hypothesis [lon_partition] *)
-  Theorem C16_horizontal_integral_conserved_partial
+  (** tensor-product (area) integral in an arbitrary ordered field, given the
+      periodic partition identity [lon_partition] (proved over the reals below:
+      C16_longitude_partition, C16_horizontal_integral_conserved) *)
+  Theorem C16_horizontal_integral_conserved_given_partition
           period na nb (tp sp : nat -> F) nc nd (tb sb st ss : nat -> F) (f : nat -> nat -> F) :
     lon_partition period na nb tp sp ->
     (forall a, (a < na)%nat -> cell_width na period tp a <> 0) ->
@@ -221,16 +221,9 @@ Theorem C16_latitude_integral_conserved_R n m (tx sx x : nat -> R) :
   = @sumn R ROps m (fun j => (ss (S j) - ss j) * x j).
 Proof. exact (latitude_integral_conserved_R n m tx sx x). Qed.
 
-(** Longitude, pointwise (current code: the second interval is moved as a whole
-    next to x0 and the overlaps with its images at -period, 0, +period are
-    summed).  Over the reals: a full-period interval overlaps every cell not
-    wider than the period by the whole cell, an empty interval by nothing.
-    Real precondition of the (unproved) partition identity [lon_partition]:
-    every cell width <= period and every pair of lower bounds less than 3/2
-    periods apart (true after [% period]).  Still missing: additivity of the
-    periodic overlap over adjacent cells along the cyclically ordered chain
-    produced by _periodic_lower/upper_bounds (a brute-force case split proves it
-    over R but takes ~19 min of lra, so it is not part of the build). *)
+(** Longitude over the reals (current code: the second interval is moved as a
+    whole next to x0 and the overlaps with its images at -period, 0, +period are
+    summed). *)
 Theorem C16_periodic_overlap_images period (x0 x1 y0 y1 : R) :
   let s := (@align_phase R ROps y0 x0 period - y0)%R in
   @per_overlap R ROps period x0 x1 y0 y1
@@ -242,6 +235,76 @@ Theorem C16_periodic_overlap_full_circle_R (P x0 x1 u : R) :
   (0 < P)%R -> (x0 <= x1)%R -> (x1 - x0 <= P)%R -> (- (3 * P / 2) < u - x0 < 3 * P / 2)%R ->
   @per_overlap R ROps P x0 x1 u (u + P)%R = (x1 - x0)%R /\ @per_overlap R ROps P x0 x1 u u = 0%R.
 Proof. intros HP Hx Hw Hr. split; [now apply pov_full_R|now apply pov_empty_R]. Qed.
+
+(** The periodic partition identity, over the reals, for ALL numbers of cells.
+    [cyclic_points P n p g]: the points [p] (already reduced into [0,P)) advance
+    cyclically by steps [g j] in (0, P/2) and go around exactly once.  This is the
+    real precondition of _periodic_lower/upper_bounds (a neighbour exactly P/2
+    away, e.g. a 2-node grid, is not aligned correctly).  Then the cells tile the
+    circle and the overlaps of every target cell with the source cells add up to
+    its width, and vice versa. *)
+Theorem C16_longitude_partition P n m (tp gt sp gs : nat -> R) :
+  (0 < P)%R -> cyclic_points P n tp gt -> cyclic_points P m sp gs ->
+  @lon_partition R ROps P n m tp sp.
+Proof. exact (lon_partition_R P n m tp gt sp gs). Qed.
+
+(** strictly increasing longitudes whose gaps (including the closing gap
+    x_0 + P - x_{n-1}) lie in (0, P/2), reduced mod P with quotients k_j
+    (0 <= x_j - k_j P < P), are cyclic points *)
+Theorem C16_longitude_points_cyclic P n (x : nat -> R) (k : nat -> Z) :
+  (0 < P)%R -> (0 < n)%nat ->
+  (forall j, (j < n)%nat -> (0 < gaps P n x j < P / 2)%R) ->
+  (forall j, (j < n)%nat -> (0 <= x j - IZR (k j) * P < P)%R) ->
+  cyclic_points P n (fun j => @pmod R ROps P (k j) (x j)) (gaps P n x).
+Proof. exact (cyclic_points_of_increasing P n x k). Qed.
+
+(** conservative_longitude_weights: every row total is the (positive) target
+    cell width, so every row is normalisable; weights >= 0, rows sum to one,
+    constants are reproduced, outputs stay within the range of the inputs *)
+Theorem C16_longitude_rows P n m (tp gt sp gs : nat -> R) i :
+  (0 < P)%R -> cyclic_points P n tp gt -> cyclic_points P m sp gs -> (i < n)%nat ->
+  @row_total R ROps m (@lon_overlap R ROps P n m tp sp) i = @cell_width R ROps n P tp i /\
+  (0 < @cell_width R ROps n P tp i)%R /\
+  (forall j, (j < m)%nat -> (0 <= @lon_weights R ROps P n m tp sp i j)%R) /\
+  @sumn R ROps m (@lon_weights R ROps P n m tp sp i) = 1%R /\
+  (forall c, @apply_weights R ROps m (@lon_weights R ROps P n m tp sp) (fun _ => c) i = c) /\
+  (forall x lo hi, (forall j, (j < m)%nat -> (lo <= x j <= hi)%R) ->
+      (lo <= @apply_weights R ROps m (@lon_weights R ROps P n m tp sp) x i <= hi)%R).
+Proof. exact (longitude_rows_R P n m tp gt sp gs i). Qed.
+
+(** ConservativeRegridder._mean conserves the area-weighted integral: real sin,
+    strictly increasing latitude centres in [-pi/2, pi/2], strictly increasing
+    longitudes with gaps < P/2 reduced mod P; no table or partition hypothesis *)
+Theorem C16_horizontal_integral_conserved
+        P na nb (tlon slon : nat -> R) (kt ks : nat -> Z) nc nd (tlat slat : nat -> R) (f : nat -> nat -> R) :
+  (0 < P)%R -> (0 < na)%nat -> (0 < nb)%nat -> (0 < nc)%nat -> (0 < nd)%nat ->
+  (forall j, (j < na)%nat -> (0 < gaps P na tlon j < P / 2)%R) ->
+  (forall j, (j < na)%nat -> (0 <= tlon j - IZR (kt j) * P < P)%R) ->
+  (forall j, (j < nb)%nat -> (0 < gaps P nb slon j < P / 2)%R) ->
+  (forall j, (j < nb)%nat -> (0 <= slon j - IZR (ks j) * P < P)%R) ->
+  (forall i, (S i < nc)%nat -> (tlat i < tlat (S i))%R) -> (- (PI / 2) <= tlat 0%nat)%R -> (tlat (nc - 1)%nat <= PI / 2)%R ->
+  (forall j, (S j < nd)%nat -> (slat j < slat (S j))%R) -> (- (PI / 2) <= slat 0%nat)%R -> (slat (nd - 1)%nat <= PI / 2)%R ->
+  let tp := fun j => @pmod R ROps P (kt j) (tlon j) in
+  let sp := fun j => @pmod R ROps P (ks j) (slon j) in
+  let st := fun k => sin (@lat_bounds R ROps (PI / 2)%R nc tlat k) in
+  let ss := fun k => sin (@lat_bounds R ROps (PI / 2)%R nd slat k) in
+  @sumn R ROps na (fun a => @sumn R ROps nc (fun c =>
+      (@cell_width R ROps na P tp a * (st (S c) - st c) *
+       @mean2 R ROps nb nd (@lon_weights R ROps P na nb tp sp)
+              (@lat_weights R ROps (PI / 2)%R nc nd tlat slat st ss) f a c)%R))
+  = @sumn R ROps nb (fun b => @sumn R ROps nd (fun d =>
+      (@cell_width R ROps nb P sp b * (ss (S d) - ss d) * f b d)%R)).
+Proof. exact (horizontal_integral_conserved_real P na nb tlon slon kt ks nc nd tlat slat f). Qed.
+
+(** non-vacuity of [cyclic_points] over R: three points on a circle of length 12 *)
+Example C16_cyclic_points_satisfiable :
+  cyclic_points 12%R 3 (fun j => nth j [1; 5; 9]%R 0%R) (fun _ => 4%R) /\
+  cyclic_points 12%R 3 (fun j => nth j [5; 9; 1]%R 0%R) (fun _ => 4%R).
+Proof.
+  split; (split; [lia|split; [|split; [|split]]]).
+  all: try (intros j Hj; destruct j as [|[|[|j]]]; try lia; unfold nxt; cbn; lra).
+  all: cbn; lra.
+Qed.
 
 (** The former out-of-domain witness (three source and three target longitudes,
     cells period/3 wide: two widths add up to more than period/2).  With the old
@@ -331,11 +394,16 @@ Print Assumptions C16_latitude_overlap_is_sin_overlap.
 Print Assumptions C16_latitude_rows.
 Print Assumptions C16_latitude_integral_conserved.
 Print Assumptions C16_latitude_integral_conserved_R.
-Print Assumptions C16_longitude_rows_partial.
-Print Assumptions C16_horizontal_integral_conserved_partial.
+Print Assumptions C16_longitude_rows_given_total.
+Print Assumptions C16_horizontal_integral_conserved_given_partition.
 Print Assumptions C16_nan_semantics_strict.
 Print Assumptions C16_nan_semantics_skipna.
 Print Assumptions C16_periodic_overlap_images.
 Print Assumptions C16_periodic_overlap_full_circle_R.
+Print Assumptions C16_longitude_partition.
+Print Assumptions C16_longitude_points_cyclic.
+Print Assumptions C16_longitude_rows.
+Print Assumptions C16_horizontal_integral_conserved.
+Print Assumptions C16_cyclic_points_satisfiable.
 Print Assumptions C16_longitude_coarse_conserves.
 Print Assumptions C16_hyps_satisfiable.
